@@ -21,7 +21,7 @@ open LP
 
 inductive Variant where
   | plain | flex | merkle
-deriving DecidableEq, Repr, BEq
+deriving DecidableEq, Repr
 
 /-- `state::Stage`. `pal` = `per_address_limit` (the flex crate has no such field: always `0` there);
 `mcl` = `mint_count_limit`. -/
@@ -33,7 +33,7 @@ structure Stage where
   price : Nat
   pal : Nat
   mcl : Option Nat
-deriving DecidableEq, Repr, BEq
+deriving DecidableEq, Repr
 
 /-- `stage.start_time <= current_time && current_time <= stage.end_time` — the CLOSED window
 (`fetch_active_stage`, `fetch_active_stage_index`). -/
@@ -217,6 +217,9 @@ inductive Op where
   | updateAdmins (now : Nat) (sender : Addr) (admins : List Addr)
   | freeze (now : Nat) (sender : Addr)
 
+/-- the flex crate's `Stage` has no `per_address_limit` field: whatever the protocol line carries is dropped -/
+def normStage (v : Variant) (st : Stage) : Stage := if v == .flex then { st with pal := 0 } else st
+
 /-- the contract does not exist before the first successful `inst` -/
 abbrev World := Option State
 
@@ -227,6 +230,7 @@ def ofBool (b : Bool) (e : Err) : Except Err Unit := if b then .ok () else .erro
 def instantiate (v : Variant) (now : Nat) (funds : List Coin) (limit : Nat) (whale : Option Nat)
     (admins : List Addr) (mutable : Bool) (stages : List Stage) (members : List (List (Addr × Nat)))
     (roots : List Nat) (uriBad : Bool) : Except Err State :=
+  let stages := stages.map (normStage v)
   match v with
   | .merkle => do
     -- merkle roots were checked to be 16-byte hex by the driver's parser (a bad one never reaches the model as a Nat)
@@ -280,7 +284,7 @@ def addStage (v : Variant) (s : State) (now : Nat) (sender : Addr) (st : Stage) 
     Except Err State := do
   ofBool (isAdmin s sender) .unauthorized
   ofBool (decide (s.stages.length < 3)) .limit
-  let stages' := s.stages ++ [st]
+  let stages' := s.stages ++ [normStage v st]
   ofBool (validateStages v now stages') .invalid
   let k := stages'.length - 1
   let members := if v == .plain then sortDedup members else members
@@ -352,9 +356,23 @@ def freeze (s : State) (sender : Addr) : Except Err State := do
   pure { s with mutable := false }
 
 /-- list-based messages do not exist in the Merkle crate's `ExecuteMsg` (deserialisation fails) -/
-def listBased (v : Variant) : Except Err Unit := if v == .merkle then .error .invalid else .ok ()
+def listBased : Variant → Except Err Unit
+  | .merkle => .error .invalid
+  | _ => .ok ()
 
-/-- one transaction against the current world. `inst` creates a fresh contract. -/
+/-- an execute message against an instantiated contract -/
+def exec (v : Variant) (s : State) : Op → Except Err State
+  | .inst .. => .error .other
+  | .addStage now sender st ms => do listBased v; addStage v s now sender st ms
+  | .removeStage now sender id => do listBased v; removeStage s now sender id
+  | .updateStage _ sender u => updateStage v s sender u
+  | .addMembers _ sender id ms => do listBased v; addMembers v s sender id ms
+  | .removeMembers now sender id as => do listBased v; removeMembers s now sender id as
+  | .increaseLimit _ _ funds limit => do listBased v; increaseLimit v s funds limit
+  | .updateAdmins _ sender admins => updateAdmins s sender admins
+  | .freeze _ sender => freeze s sender
+
+/-- one transaction against the current world. `inst` creates a fresh contract (the new current one). -/
 def step (v : Variant) (w : World) (op : Op) : Except Err World :=
   match op with
   | .inst now _ funds limit whale admins mutable stages members roots uriBad =>
@@ -362,17 +380,7 @@ def step (v : Variant) (w : World) (op : Op) : Except Err World :=
   | op =>
     match w with
     | none => .error .notFound
-    | some s =>
-      (match op with
-       | .inst .. => .error .other
-       | .addStage now sender st ms => do listBased v; addStage v s now sender st ms
-       | .removeStage now sender id => do listBased v; removeStage s now sender id
-       | .updateStage _ sender u => updateStage v s sender u
-       | .addMembers _ sender id ms => do listBased v; addMembers v s sender id ms
-       | .removeMembers now sender id as => do listBased v; removeMembers s now sender id as
-       | .increaseLimit _ _ funds limit => do listBased v; increaseLimit v s funds limit
-       | .updateAdmins _ sender admins => updateAdmins s sender admins
-       | .freeze _ sender => freeze s sender).map some
+    | some s => (exec v s op).map some
 
 /-- transactional semantics: a failed message leaves the world unchanged -/
 def step' (v : Variant) (w : World) (op : Op) : World :=
